@@ -76,6 +76,10 @@ class Prop:
         files, meta = self._run_go(args, self.dir)
         self.shards = meta["shards"]
         self.extra_coverage = {"discarded_scenarios": meta.get("discarded", 0), "crashed_scenarios": meta.get("crashed", 0),
+                               "churn_datagrams_judged": sum((c.get("churn") or {}).get("datagrams", 0) for c in meta["cases"]),
+                               "churn_reconfigurations": sum((c.get("churn") or {}).get("reconfigs", 0) for c in meta["cases"]),
+                               "churn_leaked": sum((c.get("churn") or {}).get("leaked", 0) for c in meta["cases"]),
+                               "churn_honest_lost": sum((c.get("churn") or {}).get("lost", 0) for c in meta["cases"]),
                                "cookie_load_scenarios": sum(1 for c in meta["cases"] if any(e.get("flood") for e in c.get("evs") or [])),
                                "cookie_replies_provoked": sum(e.get("cookies", 0) for c in meta["cases"] for e in c.get("evs") or []),
                                "junk_datagrams_during_tun_writes": sum(e.get("junk_sent", 0) for c in meta["cases"] for e in c.get("evs") or [])}
@@ -123,6 +127,8 @@ class Prop:
         if case.get("kind") == "crashed":
             return
         evs = case["evs"]
+        if (case.get("gen") or "").startswith("churn-"):
+            return   # a race between the receive path and the UAPI: the harness regenerates the flood, nothing to shrink
         if any(e.get("flood") for e in evs):
             # a buffer-sharing failure after cookie load is scheduling dependent: delta debugging on it only burns time.
             # Keep the scenario up to the failing step.
@@ -163,6 +169,9 @@ class Prop:
         if case.get("kind") == "crashed":
             return "device-crashed"
         evs = case["evs"]
+        if (case.get("gen") or "").startswith("churn-") and (case.get("churn") or {}).get("leaked"):
+            return "source-owned-by-another-peers-longer-prefix-written-during-reconfiguration"
+
         pos = (case.get("_pos") or {}).get(str(f.get("kind")), f.get("pos", 0))
         # an "idle" event is written as one age step per peer in the case file: map the step back to the event
         k = 0
